@@ -60,7 +60,7 @@ pat(r"goto skipaction_(.*);", lambda m: [Ev("GOTO", "skipaction", m.group(1))])
 pat(r"repeatswitch:", lambda m: [Ev("LABEL", "repeatswitch")])
 pat(r"fall_(.*):", lambda m: [Ev("LABEL", "fall", m.group(1))])
 pat(r"jpto_(.*):", lambda m: [Ev("LABEL", "jpto", m.group(1))])
-pat(r"skipaction_(.*):", lambda m: [Ev("LABEL", "skipaction", m.group(1))])
+pat(r"skipaction_(.*):;?", lambda m: [Ev("LABEL", "skipaction", m.group(1))])
 pat(r"case (.*):", lambda m: [Ev("CASE", m.group(1))])
 pat(r"switch \(state->state\) \{", lambda m: [Ev("SWITCH")])
 # --- buffers -----------------------------------------------------------------------------------
